@@ -39,6 +39,7 @@ def _do_download(rig, srv, idx, sub, payload, mode, chunking, tag):
             pos += c
             i += 1
         fp.close()
+        _close_again(rig, fp, tag)
     else:
         kind, sized = mode.split("_")          # raw|bufc|bufp|bufn  x  size|nosize|force
         size = n if sized in ("size", "force") else None
@@ -73,6 +74,7 @@ def _do_download(rig, srv, idx, sub, payload, mode, chunking, tag):
                 pos += k
                 i += 1
         fp.close()
+        _close_again(rig, fp, tag)
     sx.prove(len(srv.commits) == before + 1, "server completed exactly one download", tag + "/completed")
     if len(srv.commits) != before + 1:
         return
@@ -82,6 +84,17 @@ def _do_download(rig, srv, idx, sub, payload, mode, chunking, tag):
     sx.prove(len(data) == n, "committed length equals payload length", tag + "/length")
     sx.prove(sx.eq_bytes(sx.mkbytes(data), payload), "committed bytes equal the payload", tag + "/bytes")
     sx.prove(srv.state == "idle", "transfer closed", tag + "/closed")
+
+
+def _close_again(rig, fp, tag):
+    """close() of an already closed stream has no effect (io contract; `with` plus an explicit close does it)"""
+    nsent = len(rig.sent)
+    try:
+        fp.close()
+    except Exception as e:
+        sx.observe("exc", C.exc_name(e))
+        sx.fail("second close() raised %s" % C.exc_name(e), tag + "/close-twice-raises")
+    sx.prove(len(rig.sent) == nsent, "second close() emits no frame", tag + "/close-twice")
 
 
 def download(n, mode, chunking="all", n2=None, mode2="api"):
@@ -191,6 +204,7 @@ def _one_upload(rig, srv, idx, sub, n, style, last, width, how, seg_len, tag, vn
                 txt = sx.mkstr(parts)
             got = sx.mkbytes(sx.cps(txt))
             fp.close()
+            _close_again(rig, fp, tag)
             exp = value
             sx.observe("got", got)
             sx.prove(len(sx.items(got)) == len(sx.items(exp)), "returned length", tag + "/length")
@@ -220,6 +234,7 @@ def _one_upload(rig, srv, idx, sub, n, style, last, width, how, seg_len, tag, vn
         sx.prove(fp.raw.size == announced if how.startswith("buf") else fp.size == announced,
                  "stream size is the announced size", tag + "/size")
         fp.close()
+        _close_again(rig, fp, tag)
         exp = value
     sx.observe("got", got)
     sx.prove(len(sx.items(got)) == len(sx.items(exp)), "returned length", tag + "/length")
